@@ -20,9 +20,9 @@ type c07Case struct {
 }
 
 func genC07(t *rapid.T) *c07Case {
-	cfg := gen.ImgCfg{MaxSide: 48, BigChance: 3, BigSide: 150, ThinPermille: 8}
+	cfg := gen.ImgCfg{MaxSide: 48, BigChance: 3, BigSide: 150, ThinPermille: 8, LargePermille: 5}
 	if tierThorough() {
-		cfg = gen.ImgCfg{MaxSide: 72, BigChance: 3, BigSide: 320}
+		cfg = gen.ImgCfg{MaxSide: 72, BigChance: 3, BigSide: 320, ThinPermille: 8, LargePermille: 5}
 	}
 	// bias toward pictures that do carry transparency
 	cfg.Alphas = []string{"opaque", "binary", "binary", "levels", "levels", "gradient", "noise", "transparent", "transp-colored", "semi-flat", "late", "early"}
